@@ -310,6 +310,44 @@ def gen_held_bursts(v, rng, n=2000):
         # idle rounds: whatever is still buffered must come out
         ops += [(1, 8)] if not clean else []
         cases.append(fmt(cfg, ops))
+    cases += gen_after_disconnect(v, rng, max(60, n // 5))
+    return cases
+
+
+def gen_after_disconnect(v, rng, n=400):
+    """MQTT 5 servers with handle_qos_after_disconnect (configuration field 6: 0 = None, q + 1 = Some(q)): frames that
+    sit behind the peer's DISCONNECT in the same read are still dispatched; publishes above q are dropped -- but a
+    dropped PUBLISH that carries topic and alias still (re)binds the alias for the ones that are delivered"""
+    if v != 5:
+        return []
+    cases = []
+    for _ in range(n):
+        hq = rng.choice([0, 1, 1, 2, 3])
+        cfg = (2, 0, 3, 0, 0, 0, hq)
+        ops = []
+        pid = 0
+        npub = 0
+
+        def mk(q, topic, alias):
+            nonlocal pid, npub
+            if q:
+                pid += 1
+            npub += 1
+            return pub(q, pid, topic, alias=alias)
+        for _b in range(rng.randint(0, 2)):
+            ops.append((4,) + mk(rng.choice([0, 0, 1]), rng.randint(1, 3), rng.choice([0, 1, 2])))
+        ops.append((4, 1, 9, 0, 0))
+        for _a in range(rng.randint(1, 4)):
+            r = rng.random()
+            if r < 0.5:
+                ops.append((4,) + mk(rng.choice([0, 1, 2]), rng.randint(1, 3), rng.choice([1, 2])))
+            else:
+                ops.append((4,) + mk(rng.choice([0, 0, 1]), 0, rng.choice([1, 2])))
+        ops[-1] = ops[-1][1:]                      # the last one is not held: everything is read in one go
+        hs = list(range(1, npub + 1))
+        rng.shuffle(hs)
+        ops += [(2, h, 0) for h in hs]
+        cases.append(fmt(cfg, ops))
     return cases
 
 
